@@ -111,6 +111,13 @@ READ_SOME = {"ModelFunction": {"name", "arguments"}, "DetectionPipeline": None, 
 DESCEND = {"Processor", "CCD", "CMOS", "MKID", "APD", "DetectionPipeline", "ModelGroup", "ModelFunction", "Arguments"} | READ_ALL
 
 
+def is_plain(v) -> bool:
+    """a value (what a setting holds), as opposed to an object that holds settings — stated independently of the code"""
+    if isinstance(v, (list, tuple)):
+        return all(is_plain(x) for x in v)
+    return v is None or isinstance(v, (bool, int, float, complex, str, np.ndarray, np.generic))
+
+
 def public(n: str) -> bool:
     return not n.startswith("_")
 
@@ -152,7 +159,12 @@ def tree_of(o, keep: set, depth=0):
             ms.append([n, "class", None, {"leaf": {"t": "opaque", "v": "method"}}])
     for n, v in vars(o).items():
         if public(n):
-            ms.append([n, "inst", None, tree_of(v, keep, depth + 1)])
+            sub = tree_of(v, keep, depth + 1)
+            if "leaf" in sub and not is_plain(v):
+                # an instance attribute that holds an object (a list of models, an Observation, ...), not a value:
+                # an opaque object without settings of its own
+                sub = {"node": "obj", "open": False, "members": []}
+            ms.append([n, "inst", None, sub])
         else:
             ms.append([n, "inst", None, {"leaf": {"t": "opaque", "v": "hidden"}}])
     if cls == "Arguments":
@@ -261,8 +273,7 @@ def do_validate(p):
     keep = set()
     for k in p["keys"]:
         keep |= set(k.split("."))
-        i = k.find(".arguments")
-        keep |= set((k[:i] + ".enabled").split("."))
+        keep.add("enabled")
     before = tree_of(proc, keep)
     steps = [ParameterValues(key=k, values=[1, 2], enabled=en) for k, en in zip(p["keys"], p["step_enabled"])]
     obs = Observation(parameters=steps, readout=Readout(times=[1.0]))
